@@ -402,3 +402,9 @@ def run(ctx) -> None:
             chk(ctx)
         except AnalysisError as exc:
             ctx.defer(str(exc))
+    # the pre-filter of find_blocked_reactions reads one solution through get_solution(model, reactions=reaction_list):
+    # each flux has to stand under the identifier of its own reaction for any order of the request (shared with C04)
+    from . import solform
+
+    ctx.rule("C04.labels", "finite evaluation: get_solution puts every value under the identifier of its own reaction / metabolite, whatever the order of the request (shared with C04)", floor=1)
+    ctx.guard(solform.check_get_solution, ctx, "C04.labels")
